@@ -449,6 +449,87 @@ def mxss_doc(rng):
     return "".join(parts)
 
 
+# ---- attribute values and text that carry character-reference SPELLINGS in the tree, and long values --------------------
+# delimiter -> (decimal, hex, entity name): what the sanitizer's scheme test and the re-parse care about
+REF_CHARS = {":": ("58", "3a", "colon"), "\t": ("9", "9", "Tab"), "\n": ("10", "a", "NewLine"), "<": ("60", "3c", "lt"),
+             ">": ("62", "3e", "gt"), '"': ("34", "22", "quot"), "'": ("39", "27", "apos")}
+REF_FOLLOWERS = ["", "a", "f", "1", ";", "=", " ", "&", "#", "/", "x;"]
+URI_SLOTS = ['<a href="%s">x</a>', '<img src="%s">', '<svg><a xlink:href="%s">t</a></svg>', '<form action="%s"></form>',
+             '<blockquote cite="%s">x</blockquote>']
+VAL_SLOTS = ['<p title="%s">x</p>', '<img alt="%s">', '<svg><desc class="%s">t</desc></svg>']
+TEXT_SLOTS = ["<p>%s</p>", "<textarea>%s</textarea>", "<svg><desc>%s</desc></svg>", "<pre>%s</pre>"]
+
+
+def ref_spellings(ch):
+    d, h, name = REF_CHARS[ch]
+    out = ["#" + d, "#0" + d, "#00000" + d, "#x" + h, "#X" + h.upper(), "#x0" + h]
+    if name:
+        out.append(name)
+    return [sp + semi for sp in out for semi in ("", ";")]
+
+
+def _src(value):
+    """source text that yields `value` in the tree (inside double quotes / as text)"""
+    return value.replace("&", "&amp;").replace("<", "&lt;").replace('"', "&quot;")
+
+
+def ref_piece(rng, ch, sp, fo):
+    """one element whose TREE attribute value / text holds '&' + spelling + follower where decoding it would matter"""
+    r = "&" + sp + fo
+    if ch == ":":
+        return rng.choice(URI_SLOTS) % _src("javascript" + r + "alert(1)")
+    if ch in "\t\n":
+        return rng.choice(URI_SLOTS) % _src("java" + r + "script:alert(1)")
+    if ch in "<>":
+        lt = r if ch == "<" else "&lt" + fo
+        gt = r if ch == ">" else "&gt;"
+        return rng.choice(VAL_SLOTS + TEXT_SLOTS) % _src(lt + "img src=x onerror=y" + gt)
+    return rng.choice(VAL_SLOTS) % _src("x" + r + " onmouseover=y z=" + r)
+
+
+def ref_docs(rng, quick):
+    combos = [(ch, sp, fo) for ch in REF_CHARS for sp in ref_spellings(ch) for fo in REF_FOLLOWERS]
+    if quick:       # every spelling x follower for ':' (the scheme delimiter), a seeded third of the rest
+        combos = [c for c in combos if c[0] == ":" or rng.random() < 0.34]
+    rng.shuffle(combos)
+    docs = []
+    for k in range(0, len(combos), 3):
+        docs.append("".join(ref_piece(rng, *c) for c in combos[k:k + 3]))
+    return docs
+
+
+def long_jobs(rng, quick):
+    """every VALUE of quote_attr_values x attribute values whose length passes n-1, n, n+1 for every integer literal of the
+    serializer / sanitizer sources (and 64 .. 4096), harmless up to there, with the character that forces quoting in the tail"""
+    jobs = []
+    for n in mxssgen.value_sizes():
+        for qav in ("legacy", "spec", "always"):
+            tails = mxssgen.TAILS if not quick else rng.sample(mxssgen.TAILS, 2)
+            for tail in tails:
+                unit = rng.choice(["A", "A", "a/", "\u00e9", "0"])
+                pad = (unit * n)[:n]
+                slot, val = rng.choice([(VAL_SLOTS[0], pad), (URI_SLOTS[0], ("http://a/" + pad)[:n]), (URI_SLOTS[2], ("#" + pad)[:n]),
+                                        (VAL_SLOTS[1], pad)])
+                kw = rand_opts(rng)
+                kw["quote_attr_values"] = qav
+                jobs.append((slot % (val + tail), kw))
+    return jobs
+
+
+def tricky_docs(rng, quick):
+    """code points on which Python's and HTML's character classes disagree, at the edges and inside scheme names / values"""
+    from .. import charclasses
+    chars = sorted(set(charclasses.PY_ONLY_SPACE + charclasses.C0_CONTROLS + "\u212a\u0131\u017f\ufeff"))
+    if quick:
+        chars = rng.sample(chars, 12)
+    docs = []
+    for ch in chars:
+        e = "&#%d;" % ord(ch)
+        docs.append('<a href="%sjavascript:x">a</a><a href="java%sscript:x">b</a><a href="javascript%s:x">c</a>'
+                    '<p title=x%sonmouseover=y>d</p><img src="javascript:x%s">' % (e, e, e, e, e))
+    return docs
+
+
 def build_jobs(ctx, extra_srcs):
     rng = ctx.rng
     q = ctx.quick
@@ -469,8 +550,12 @@ def build_jobs(ctx, extra_srcs):
         srcs.append((corpus.soup(rng), "?", "?", None))
     for _ in range(150 if q else 3000):
         srcs.append((corpus.mutate(rng, mxss_doc(rng)), "?", "?", None))
+    for s_ in ref_docs(rng, q) + tricky_docs(rng, q):
+        srcs.append((s_, rng.choice([None, "div", "div"]), "default", "short"))
     jobs = []
     for i, (src, cx1, lists, scr) in enumerate(srcs):
+        short = scr == "short"
+        scr = None if short else scr
         if cx1 == "?":
             cx1 = None if src[:9].lower() == "<!doctype" else rng.choice(FIRST_CX)
         if lists == "?":
@@ -481,10 +566,13 @@ def build_jobs(ctx, extra_srcs):
             kw.pop("alphabetical_attributes", None)      # with an explicit Filter these two would sit after the sanitizer
             kw.pop("strip_whitespace", None)
         rps = [(None, False, "etree"), ("div", not scr1, "dom" if i % 2 else "etree")]
-        for _ in range(2):
+        for _ in range(0 if short else 2):
             rps.append((rng.choice(REPARSE_CX), rng.random() < 0.5, rng.choice(["etree", "dom"])))
         jobs.append({"src": src, "cx1": cx1, "scr1": scr1, "tb": "dom" if (i % 3 == 0 or src.lower().startswith("<!doctype")) else "etree",
                      "kw": kw, "lists": lists, "rps": rps})
+    for i, (src, kw) in enumerate(long_jobs(rng, q)):
+        jobs.append({"src": src, "cx1": "div" if i % 3 else None, "scr1": False, "tb": "dom" if i % 2 else "etree", "kw": kw,
+                     "lists": "default", "rps": [(None, False, "etree"), ("div", True, "dom")]})
     return jobs
 
 
@@ -522,14 +610,17 @@ def _replay(rec):
     """one exported state: every plan entry through the real pipeline"""
     _warn_off()
     cfg = _MC["cfg"]
-    src = core.ucs(rec["src"])
+    mine = cfg["runs"][rec["run"] - 1]
+    src = dec(mine["pre"]) + core.ucs(rec["src"]) + dec(mine["post"])
     bad = []
-    for pi, (entry, run) in enumerate(zip(cfg["plan"], rec["runs"])):
+    for pi, run in zip(mine["plan"], rec["runs"]):
+        entry = cfg["plan"][pi - 1]
+        pi -= 1
         f = cfg["firsts"][entry["f"] - 1]
         o = cfg["opts"][entry["o"] - 1]
         cx1 = dec(f["cx"])
         kw = mxssgen.serializer_kwargs(o)
-        lists = cfg["runs"][rec["run"] - 1]["lists"]
+        lists = mine["lists"]
         fkw = mxssgen.filter_kwargs(lists)
         tb = "dom" if (cx1 is None or (len(src) + pi) % 2) else "etree"
         try:
@@ -567,8 +658,8 @@ def run_mc(ctx, plan, parser, faithful, listed_keys):
     failing_srcs = []
     model_level = {}
     shown = False
-    runs_i = [(a, n, l) for a, n, l, m in plan if m == "intended"]
-    runs_f = [(a, n, l) for a, n, l, m in plan if m == "faithful"]
+    runs_i = [r for r, m in plan if m == "intended"]
+    runs_f = [r for r, m in plan if m == "faithful"]
     if runs_i:
         path = os.path.join(d, "mxss_cfg_intended.json")
         mxssgen.write_cfg(path, runs_i)
@@ -588,8 +679,9 @@ def run_mc(ctx, plan, parser, faithful, listed_keys):
         res = core.parallel(_replay, batch, chunk=200)
         for rec, bad in zip(batch, res):
             ctx.traces += 1
-            src = core.ucs(rec["src"])
-            lists = cfg["runs"][rec["run"] - 1]["lists"]
+            mine = cfg["runs"][rec["run"] - 1]
+            src = dec(mine["pre"]) + core.ucs(rec["src"]) + dec(mine["post"])
+            lists = mine["lists"]
             fails = False
             for run in rec["runs"]:
                 if not run["isame"]:
@@ -605,10 +697,11 @@ def run_mc(ctx, plan, parser, faithful, listed_keys):
                 failing_srcs.append(src)
             for pi, what, got, exp in bad:
                 ctx.violation("real pipeline differs from the code-faithful specification: %s [%s, plan entry %d]"
-                              % (what, cfg["runs"][rec["run"] - 1], pi + 1),
+                              % (what, "+".join(mine["alphas"]) + "/" + lists, pi + 1),
                               {"kind": "replay", "src": src, "lists": lists, "plan": pi, "got": got, "expected": exp})
-        if not shown and batch:
-            m = min(batch, key=lambda x: hashlib.md5(json.dumps(x["src"]).encode()).hexdigest())
+        full = [x for x in batch if len(x["runs"]) >= 2 and len(x["runs"][1]["rp"]) >= 2]
+        if not shown and full:
+            m = min(full, key=lambda x: hashlib.md5(json.dumps(x["src"]).encode()).hexdigest())
             ctx.sample({"spec_to_code": core.ucs(m["src"]), "expected_output": core.ucs(m["runs"][1]["out"]),
                         "expected_elements_reparsed_in_div": len(m["runs"][1]["rp"][1]["F"])})
             shown = True
@@ -687,24 +780,33 @@ def run(ctx):
     sergen.main()
     parser, faithful, listed_keys = defect_sets(ctx)
     q = ctx.quick
-    # (alphabet, max fragments, allow-lists, configuration)
-    plan = ([("core", 2, "default", "intended"), ("all", 2, "default", "faithful"), ("deep", 3, "default", "faithful"),
-             ("core", 2, "extended", "faithful")] if q else
-            [("all", 2, "default", "intended"), ("deep", 3, "default", "intended"), ("all", 2, "extended", "intended"),
-             ("all", 2, "default", "faithful"), ("core", 3, "default", "faithful"), ("deep", 4, "default", "faithful"),
-             ("all", 2, "extended", "faithful"), ("deep", 3, "extended", "faithful")])
+    # (exploration, configuration); std_run(alphabet, max fragments, allow-lists)
+    R = mxssgen.std_run
+    plan = ([(R("core", 2, "default"), "intended"), (R("all", 2, "default"), "faithful"), (R("deep", 3, "default"), "faithful"),
+             (R("core", 2, "extended"), "faithful"), (mxssgen.REFS_RUN, "faithful"), (mxssgen.LONG_RUN, "faithful")] if q else
+            [(R("all", 2, "default"), "intended"), (R("deep", 3, "default"), "intended"), (R("all", 2, "extended"), "intended"),
+             (mxssgen.REFS_RUN, "intended"), (mxssgen.LONG_RUN, "intended"),
+             (R("all", 2, "default"), "faithful"), (R("core", 3, "default"), "faithful"), (R("deep", 4, "default"), "faithful"),
+             (R("all", 2, "extended"), "faithful"), (R("deep", 3, "extended"), "faithful"), (mxssgen.REFS_RUN, "faithful"),
+             (mxssgen.LONG_RUN, "faithful")])
     ctx.assumptions = list(ASSUMED)
     ctx.constants = {
-        "MC plan (alphabet, max fragments, allow-lists, configuration)": plan,
-        "alphabets": {"all": mxssgen.ALL, "core": mxssgen.CORE, "deep": mxssgen.DEEP},
+        "MC plan (alphabet per fragment position, allow-lists, configuration)":
+            [["+".join(r["alphas"]), r["lists"], dec(r["pre"]), dec(r["post"]), r["plan"], m] for r, m in plan],
+        "alphabets": {"all": mxssgen.ALL, "core": mxssgen.CORE, "deep": mxssgen.DEEP, "refs": mxssgen.REFS, "tails": mxssgen.MC_TAILS,
+                      "pads": "'A' x n for n in %s (n-1, n, n+1 around the integer literals of %s (harness/literals.py) and 64, 256)"
+                              % (mxssgen.value_sizes(mxssgen.MC_SIZE_CAP, (64, 256)), list(mxssgen.SIZE_SOURCES))},
         "per state": "first parse {document, fragment(div), fragment(div) scripting} x 3 option vectors x re-parse {document, div, div "
                      "scripting, select, table, textarea}: the %d (first, options, re-parses) entries of mxssgen.PLAN" % len(mxssgen.PLAN),
         "option vectors": mxssgen.OPTS, "KnownDefects(code-faithful)": faithful, "ParserDefects": parser, "listed findings": listed_keys,
         "extended allow-list": [list(e) for e in mxssgen.EXTRA_ELEMENTS]}
     ctx.rule = ("MC: every concatenation of <= MaxFrags fragments; theorem SafeTree and Corresponds on the intended design; the "
                 "code-faithful behaviours replayed through the real pipeline (output text, passed-tag count, every re-parsed tree, "
-                "neutralised output = intended output). Traces: real pipeline on mXSS-shaped / repo / soup inputs x random serializer "
-                "options x first-parse mode x 4 re-parse modes each, judged by TLC; rejected recordings re-run with listed constructs "
+                "neutralised output = intended output); the same for attribute values: every pair of character-reference spellings / "
+                "followers behind a scheme name, and long values x quoting-forcing tails x every value of quote_attr_values. Traces: real pipeline on mXSS-shaped / repo / soup inputs x random serializer "
+                "options x first-parse mode x 4 re-parse modes each, plus tree values / text holding every spelling of a character reference "
+                "for : TAB LF < > quotes x follower class, long values (lengths around the size literals of the code, up to 4097) x every "
+                "quote_attr_values, and Python-vs-HTML character-class code points in scheme names; judged by TLC; rejected recordings re-run with listed constructs "
                 "neutralised and judged again. non-trivial = recording in which the sanitizer escaped or dropped something")
     failing = run_mc(ctx, plan, parser, faithful, listed_keys)
     ctx.exhaustive = not ctx.violations
@@ -754,7 +856,7 @@ def replay(case):
     if c.get("kind") == "replay":
         print("replay: spec -> code disagreement on %r (%s, plan entry %d): see 'got' / 'expected' in the file" % (c["src"], c["lists"], c["plan"] + 1))
         cfg = mxssgen.write_cfg(os.path.join(core.VERIF, "out", "C10", "mxss_cfg_replay.json"))
-        e = cfg["plan"][c["plan"]]
+        e = cfg["plan"][c["plan"]]          # (c["src"] already holds pre + fragments + post)
         f = cfg["firsts"][e["f"] - 1]
         tree = first_parse(c["src"], dec(f["cx"]), f["scr"], "dom")
         out, _ = chain(tree, "dom", mxssgen.serializer_kwargs(cfg["opts"][e["o"] - 1]), mxssgen.filter_kwargs(c["lists"]))
